@@ -1,19 +1,942 @@
-// Package c19: STUB — property C19 is not built yet.
+// Package c19: marbl streams — real marbl.Stream / marbl.Reader against the Lean model
+// (Martian/Model/Marbl.lean) and the property oracle.
+//
+// Ops (kept in step with lean/Martian/Drv/C19.lean):
+//
+//	read <hex>            bytes fed to marbl.Reader until it fails
+//	log <msg> <msg> ...   messages logged concurrently to one marbl.Stream
+//	m <msg> ... run       the same, one message per op (the shrinker drops messages)
+//	m <msg> ... runmod    the same through marbl.Modifier (ids = Context.ID() of real contexts)
+//	  msg = kind/id/api/pseudo,.../host/cl/te/hdrs/reads
+//	    kind   q (request) | s (response)
+//	    id     hex, >= 8 bytes (the frames carry id[:8])
+//	    api    0|1 (Context.APIRequest)
+//	    pseudo q: method,scheme,url-host,escaped-path,raw-query,proto,remote-addr (hex)
+//	           s: proto(hex),status-code(decimal),reason(hex)
+//	    host   req.Host (hex; "-" for responses)
+//	    cl     ContentLength (decimal, may be -1)
+//	    te     n (nil) | e (empty, non-nil) | hex,hex
+//	    hdrs   _ | key:val,val;key:_;...   (hex; distinct keys = the Go map)
+//	    reads  _ | data:err:extra;...  one entry per Read the consumer performs: the bytes and the
+//	           error (n nil, e io.EOF, x other) the wrapped body returns, and how many bytes the
+//	           consumer's buffer is longer than the data. data = hex or p<len>.<start> (pattern)
+//	           N<k>: the body is http.NoBody and the consumer reads it k times
 package c19
 
-import "verif/harness/internal/core"
+import (
+	"bytes"
+	"encoding/binary"
+	"errors"
+	"fmt"
+	"io"
+	"net/http"
+	"net/url"
+	"runtime"
+	"sort"
+	"strconv"
+	"strings"
+	"sync"
+	"time"
+
+	"github.com/google/martian/v3"
+	"github.com/google/martian/v3/marbl"
+
+	"verif/harness/internal/core"
+)
 
 type P struct{}
 
 func init() { core.Register(P{}) }
 
-func (P) ID() string   { return "C19" }
-func (P) Rule() string { return "stub" }
-func (P) Gen(r *core.Rand, tier string, emit func([]string)) {}
-func (P) NewExec() core.Exec                                   { return ex{} }
-func (P) Nontrivial(ops []string, impl []string) bool         { return false }
+func (P) ID() string { return "C19" }
+func (P) Rule() string {
+	return "case = either one logging run (`m` op per message, then `run`): 1..8 messages (requests/responses, request+response pairs sharing an id, random pseudo-header " +
+		"fields, header maps with repeated/empty/binary/long values, bodies 0..MiB delivered by a scripted body in random chunkings with " +
+		"EOF-with-data / separate EOF / early stop / mid-body error / reads after EOF, consumer buffers of random slack) logged concurrently " +
+		"to one real marbl.Stream and parsed back with marbl.Reader and an independent parser; or a batch of `read` ops: streams of valid " +
+		"frames that are truncated, bit-flipped, re-typed, given boundary/huge length fields, spliced with random bytes, or purely random; " +
+		"distinct by hash of the op list; non-trivial when a log case has >= 2 messages and >= 2 data frames, or a read batch reaches " +
+		">= 2 different terminating outcomes or parses >= 1 frame before an error"
+}
 
-type ex struct{}
+func (P) Nontrivial(ops []string, impl []string) bool {
+	if len(ops) == 0 {
+		return false
+	}
+	if strings.HasPrefix(ops[0], "log ") || strings.HasPrefix(ops[0], "m ") {
+		var toks []string
+		for _, op := range ops {
+			t := strings.Fields(op)
+			if len(t) >= 2 && (t[0] == "log" || t[0] == "m") {
+				toks = append(toks, t[1:]...)
+			}
+		}
+		if len(toks) < 2 {
+			return false
+		}
+		nd := 0
+		for _, m := range toks {
+			f := strings.Split(m, "/")
+			if len(f) == 9 && f[8] != "_" {
+				nd += strings.Count(f[8], ";") + 1
+			}
+		}
+		return nd >= 2
+	}
+	ends := map[string]bool{}
+	framesBeforeErr := false
+	for _, l := range impl {
+		f := strings.Fields(l)
+		if len(f) == 0 {
+			continue
+		}
+		e := f[len(f)-1]
+		ends[e] = true
+		if len(f) > 1 && e != "end=eof" {
+			framesBeforeErr = true
+		}
+	}
+	return len(ends) >= 2 || framesBeforeErr
+}
 
-func (ex) Do(op string) core.Result { return core.Result{Impl: "bad-op"} }
-func (ex) Close()                   {}
+func fail(sig, format string, a ...interface{}) core.Result {
+	return core.Result{Fail: fmt.Sprintf(format, a...), Sig: sig}
+}
+
+// ---------------------------------------------------------------------------------------------
+// frames, independent parser
+
+type frame struct {
+	hdr         bool
+	mt          byte
+	id          string
+	name, value string // header
+	index       uint32 // data
+	terminal    bool
+	data        []byte
+	raw         []byte // the frame's bytes on the wire (independent parser only)
+}
+
+func (f frame) same(g frame) bool {
+	return f.hdr == g.hdr && f.mt == g.mt && f.id == g.id && f.name == g.name && f.value == g.value &&
+		f.index == g.index && f.terminal == g.terminal && bytes.Equal(f.data, g.data)
+}
+
+func fnv(b []byte) string {
+	h := uint64(14695981039346656037)
+	for _, c := range b {
+		h = (h ^ uint64(c)) * 1099511628211
+	}
+	return fmt.Sprintf("%016x", h)
+}
+
+func bit(b bool) string {
+	if b {
+		return "1"
+	}
+	return "0"
+}
+
+func (f frame) show() string {
+	if f.hdr {
+		return fmt.Sprintf("h.%d.%s.%s.%s", f.mt, core.HexS(f.id), core.HexS(f.name), core.HexS(f.value))
+	}
+	return fmt.Sprintf("d.%d.%s.%d.%s.%d.%s", f.mt, core.HexS(f.id), f.index, bit(f.terminal), len(f.data), fnv(f.data))
+}
+
+// indepParse reads the layout documented at the top of marbl.go by offsets; it shares no code
+// with marbl.Reader. end ∈ eof | ueof | unknown. It never allocates from a length field.
+func indepParse(b []byte) (fs []frame, end string) {
+	pos := 0
+	need := func(n uint64, fresh bool) (bool, string) {
+		rem := uint64(len(b) - pos)
+		if n <= rem {
+			return true, ""
+		}
+		if rem == 0 { // io.ReadFull returns io.EOF when no byte at all could be read
+			return false, "eof"
+		}
+		return false, "ueof"
+	}
+	for {
+		start := pos
+		if ok, e := need(10, true); !ok {
+			return fs, e
+		}
+		ft, mt, id := b[pos], b[pos+1], string(b[pos+2:pos+10])
+		pos += 10
+		switch ft {
+		case 1:
+			if ok, e := need(8, false); !ok {
+				return fs, e
+			}
+			nl := uint64(b[pos])<<24 | uint64(b[pos+1])<<16 | uint64(b[pos+2])<<8 | uint64(b[pos+3])
+			vl := uint64(b[pos+4])<<24 | uint64(b[pos+5])<<16 | uint64(b[pos+6])<<8 | uint64(b[pos+7])
+			pos += 8
+			if ok, e := need(nl+vl, false); !ok {
+				return fs, e
+			}
+			f := frame{hdr: true, mt: mt, id: id, name: string(b[pos : pos+int(nl)]), value: string(b[pos+int(nl) : pos+int(nl+vl)])}
+			pos += int(nl + vl)
+			f.raw = b[start:pos]
+			fs = append(fs, f)
+		case 2:
+			if ok, e := need(9, false); !ok {
+				return fs, e
+			}
+			idx := binary.BigEndian.Uint32(b[pos:])
+			term := b[pos+4] == 1
+			dl := uint64(binary.BigEndian.Uint32(b[pos+5:]))
+			pos += 9
+			if ok, e := need(dl, false); !ok {
+				return fs, e
+			}
+			f := frame{mt: mt, id: id, index: idx, terminal: term, data: b[pos : pos+int(dl)]}
+			pos += int(dl)
+			f.raw = b[start:pos]
+			fs = append(fs, f)
+		default:
+			return fs, "unknown"
+		}
+	}
+}
+
+// realParse drives marbl.Reader until it fails; a panic is an observation.
+func realParse(b []byte) (fs []frame, end string, panicked string) {
+	defer func() {
+		if x := recover(); x != nil {
+			end = "panic"
+			panicked = fmt.Sprint(x)
+		}
+	}()
+	r := marbl.NewReader(bytes.NewReader(b))
+	for {
+		f, err := r.ReadFrame()
+		if err != nil {
+			switch {
+			case err == io.EOF:
+				return fs, "eof", ""
+			case err == io.ErrUnexpectedEOF:
+				return fs, "ueof", ""
+			case strings.Contains(err.Error(), "unknown type of frame"):
+				return fs, "unknown", ""
+			default:
+				return fs, "err:" + err.Error(), ""
+			}
+		}
+		switch v := f.(type) {
+		case marbl.Header:
+			fs = append(fs, frame{hdr: true, mt: byte(v.MessageType), id: v.ID, name: v.Name, value: v.Value})
+		case marbl.Data:
+			fs = append(fs, frame{mt: byte(v.MessageType), id: v.ID, index: v.Index, terminal: v.Terminal, data: v.Data})
+		default:
+			return fs, fmt.Sprintf("err:frame-type-%T", f), ""
+		}
+	}
+}
+
+// parseBoth runs both parsers and states the reader clauses of the property.
+func parseBoth(b []byte) (fs []frame, ind []frame, end string, res core.Result) {
+	fs, end, pan := realParse(b)
+	ind, iend := indepParse(b)
+	if pan != "" {
+		core.Count("reader:panic")
+		return fs, ind, end, fail("reader-panic", "marbl.Reader panicked (%s) after %d frames on %d bytes; an independent parser says %d frames then %s",
+			pan, len(fs), len(b), len(ind), iend)
+	}
+	if end != iend || len(fs) != len(ind) {
+		return fs, ind, end, fail("reader-mismatch", "marbl.Reader: %d frames then %s; independent parser: %d frames then %s", len(fs), end, len(ind), iend)
+	}
+	for i := range fs {
+		if !fs[i].same(ind[i]) {
+			return fs, ind, end, fail("reader-mismatch", "frame %d: marbl.Reader %s, independent parser %s", i, fs[i].show(), ind[i].show())
+		}
+	}
+	return fs, ind, end, core.Result{}
+}
+
+func doRead(h string) core.Result {
+	b, ok := core.Unhex(h)
+	if !ok {
+		return core.Result{Impl: "bad-op"}
+	}
+	fs, _, end, res := parseBoth(b)
+	var out []string
+	for _, f := range fs {
+		out = append(out, f.show())
+	}
+	out = append(out, "end="+end)
+	res.Impl = strings.Join(out, " ")
+	core.Count("read:end=" + end)
+	if len(fs) > 0 {
+		core.Count("read:with-frames")
+	}
+	return res
+}
+
+// ---------------------------------------------------------------------------------------------
+// messages
+
+type readStep struct {
+	data  []byte
+	err   byte // n e x
+	extra int
+}
+
+type hkv struct {
+	k  string
+	vs []string
+}
+
+type msg struct {
+	kind   byte
+	id     string
+	api    bool
+	pseudo []string
+	status int
+	host   string
+	cl     int64
+	te     []string // nil = nil
+	hdr    []hkv
+	reads  []readStep
+	noBody bool // Body = http.NoBody; reads = what the consumer's reads of it return
+}
+
+var errScripted = errors.New("c19: scripted body failure")
+
+func errOf(c byte) error {
+	switch c {
+	case 'e':
+		return io.EOF
+	case 'x':
+		return errScripted
+	}
+	return nil
+}
+
+func errLetter(err error) string {
+	switch err {
+	case nil:
+		return "n"
+	case io.EOF:
+		return "e"
+	case errScripted:
+		return "x"
+	}
+	return "?"
+}
+
+func dataTok(s string) ([]byte, bool) {
+	if strings.HasPrefix(s, "p") {
+		p := strings.Split(s[1:], ".")
+		if len(p) != 2 {
+			return nil, false
+		}
+		l, e1 := strconv.Atoi(p[0])
+		st, e2 := strconv.Atoi(p[1])
+		if e1 != nil || e2 != nil || l < 0 || st < 0 {
+			return nil, false
+		}
+		b := make([]byte, l)
+		for i := range b {
+			b[i] = byte((st + i) % 251)
+		}
+		return b, true
+	}
+	return core.Unhex(s)
+}
+
+func hexList(s string) ([]string, bool) {
+	if s == "_" {
+		return []string{}, true
+	}
+	var out []string
+	for _, h := range strings.Split(s, ",") {
+		b, ok := core.Unhex(h)
+		if !ok {
+			return nil, false
+		}
+		out = append(out, string(b))
+	}
+	return out, true
+}
+
+func parseMsg(tok string) (*msg, bool) {
+	f := strings.Split(tok, "/")
+	if len(f) != 9 || (f[0] != "q" && f[0] != "s") {
+		return nil, false
+	}
+	m := &msg{kind: f[0][0]}
+	id, ok := core.Unhex(f[1])
+	if !ok {
+		return nil, false
+	}
+	m.id = string(id)
+	switch f[2] {
+	case "0":
+	case "1":
+		m.api = true
+	default:
+		return nil, false
+	}
+	ps := strings.Split(f[3], ",")
+	if m.kind == 'q' {
+		if len(ps) != 7 {
+			return nil, false
+		}
+		for _, p := range ps {
+			b, ok := core.Unhex(p)
+			if !ok {
+				return nil, false
+			}
+			m.pseudo = append(m.pseudo, string(b))
+		}
+	} else {
+		if len(ps) != 3 {
+			return nil, false
+		}
+		pr, ok1 := core.Unhex(ps[0])
+		st, err := strconv.Atoi(ps[1])
+		re, ok2 := core.Unhex(ps[2])
+		if !ok1 || !ok2 || err != nil || st < 0 {
+			return nil, false
+		}
+		m.pseudo = []string{string(pr), ps[1], string(re)}
+		m.status = st
+	}
+	h, ok := core.Unhex(f[4])
+	if !ok {
+		return nil, false
+	}
+	m.host = string(h)
+	cl, err := strconv.ParseInt(f[5], 10, 64)
+	if err != nil {
+		return nil, false
+	}
+	m.cl = cl
+	switch f[6] {
+	case "n":
+	case "e":
+		m.te = []string{}
+	default:
+		if m.te, ok = hexList(f[6]); !ok {
+			return nil, false
+		}
+	}
+	if f[7] != "_" {
+		for _, kv := range strings.Split(f[7], ";") {
+			p := strings.Split(kv, ":")
+			if len(p) != 2 {
+				return nil, false
+			}
+			k, ok := core.Unhex(p[0])
+			if !ok {
+				return nil, false
+			}
+			vs, ok := hexList(p[1])
+			if !ok {
+				return nil, false
+			}
+			m.hdr = append(m.hdr, hkv{string(k), vs})
+		}
+	}
+	if strings.HasPrefix(f[8], "N") {
+		k, err := strconv.Atoi(f[8][1:])
+		if err != nil || k < 0 || k > 100 {
+			return nil, false
+		}
+		m.noBody = true
+		for ; k > 0; k-- {
+			m.reads = append(m.reads, readStep{nil, 'e', 0})
+		}
+	} else if f[8] != "_" {
+		for _, r := range strings.Split(f[8], ";") {
+			p := strings.Split(r, ":")
+			if len(p) != 3 || len(p[1]) != 1 || !strings.Contains("nex", p[1]) {
+				return nil, false
+			}
+			d, ok := dataTok(p[0])
+			ex, err := strconv.Atoi(p[2])
+			if !ok || err != nil || ex < 0 {
+				return nil, false
+			}
+			m.reads = append(m.reads, readStep{d, p[1][0], ex})
+		}
+	}
+	return m, true
+}
+
+// scriptBody is the wrapped body: read k returns the k-th scripted result.
+type scriptBody struct {
+	steps  []readStep
+	i      int
+	closed bool
+}
+
+func (s *scriptBody) Read(b []byte) (int, error) {
+	if s.i >= len(s.steps) {
+		return 0, io.EOF
+	}
+	st := s.steps[s.i]
+	s.i++
+	n := copy(b, st.data)
+	return n, errOf(st.err)
+}
+func (s *scriptBody) Close() error { s.closed = true; return nil }
+
+type got struct {
+	n    int
+	err  error
+	data []byte
+}
+
+// recWriter is the stream's io.Writer: every Write is kept as its own chunk.
+type recWriter struct {
+	mu     sync.Mutex
+	chunks [][]byte
+}
+
+func (w *recWriter) Write(b []byte) (int, error) {
+	w.mu.Lock()
+	w.chunks = append(w.chunks, append([]byte(nil), b...))
+	w.mu.Unlock()
+	return len(b), nil
+}
+
+type pair struct{ k, v string }
+
+func sortedPairs(p []pair) []pair {
+	q := append([]pair(nil), p...)
+	sort.Slice(q, func(i, j int) bool {
+		if q[i].k != q[j].k {
+			return q[i].k < q[j].k
+		}
+		return q[i].v < q[j].v
+	})
+	return q
+}
+
+var special = map[string]bool{"Host": true, "Content-Length": true, "Transfer-Encoding": true}
+
+func joinOr(sep string, l []string) string {
+	if len(l) == 0 {
+		return "-"
+	}
+	return strings.Join(l, sep)
+}
+
+// doLog logs the messages concurrently, directly through Stream.LogRequest/LogResponse with the
+// op's ids, or (viaMod) through marbl.Modifier with the ids of real martian contexts.
+func doLog(toks []string, viaMod bool) core.Result {
+	var ms []*msg
+	for _, t := range toks {
+		m, ok := parseMsg(t)
+		if !ok || len(m.id) < 8 {
+			return core.Result{Impl: "bad-op"}
+		}
+		ms = append(ms, m)
+	}
+	if len(ms) == 0 {
+		return core.Result{Impl: "bad-op"}
+	}
+	rec := &recWriter{}
+	var s *marbl.Stream
+	var mod *marbl.Modifier
+	if viaMod {
+		mod = marbl.NewModifier(rec) // its stream cannot be closed: flushed with a sentinel message below
+	} else {
+		s = marbl.NewStream(rec)
+	}
+	wireID := make([]string, len(ms))
+	gots := make([][]got, len(ms))
+	expect := make([][]pair, len(ms)) // what the message's (pseudo-)headers are, stated from the message
+	var removes []func()
+	start := make(chan struct{})
+	var wg sync.WaitGroup
+	var panMu sync.Mutex
+	panicked := ""
+
+	t0 := time.Now().UnixNano() / 1e6
+	for i, m := range ms {
+		// build the message
+		u := &url.URL{Scheme: "", Host: ""}
+		req := &http.Request{Method: "GET", URL: u, Proto: "HTTP/1.1", Header: http.Header{}}
+		var res *http.Response
+		var body io.ReadCloser = &scriptBody{steps: m.reads}
+		if m.noBody {
+			body = http.NoBody
+			core.Count("body:http.NoBody")
+		}
+		hdr := http.Header{}
+		for _, kv := range m.hdr {
+			hdr[kv.k] = kv.vs
+		}
+		if m.kind == 'q' {
+			req.Method = m.pseudo[0]
+			u.Scheme = m.pseudo[1]
+			u.Host = m.pseudo[2]
+			p, err := url.PathUnescape(m.pseudo[3])
+			if err != nil {
+				return core.Result{Impl: "bad-op"}
+			}
+			u.Path, u.RawPath = p, m.pseudo[3]
+			u.RawQuery = m.pseudo[4]
+			req.Proto = m.pseudo[5]
+			req.RemoteAddr = m.pseudo[6]
+			req.Host = m.host
+			req.ContentLength = m.cl
+			req.TransferEncoding = m.te
+			req.Header = hdr
+			req.Body = body
+			expect[i] = []pair{{":method", req.Method}, {":scheme", u.Scheme}, {":authority", u.Host}, {":path", u.EscapedPath()},
+				{":query", u.RawQuery}, {":proto", req.Proto}, {":remote", req.RemoteAddr}}
+		} else {
+			res = &http.Response{Proto: m.pseudo[0], StatusCode: m.status, Status: m.pseudo[2], Header: hdr,
+				ContentLength: m.cl, TransferEncoding: m.te, Body: body, Request: req}
+			expect[i] = []pair{{":proto", res.Proto}, {":status", strconv.Itoa(res.StatusCode)}, {":reason", res.Status}}
+		}
+		if m.api {
+			expect[i] = append(expect[i], pair{":api", "true"})
+		}
+		for _, kv := range m.hdr {
+			if special[kv.k] {
+				continue
+			}
+			for _, v := range kv.vs {
+				expect[i] = append(expect[i], pair{kv.k, v})
+			}
+		}
+		if m.kind == 'q' && m.host != "" {
+			expect[i] = append(expect[i], pair{"Host", m.host})
+		}
+		if m.cl > 0 {
+			expect[i] = append(expect[i], pair{"Content-Length", strconv.FormatInt(m.cl, 10)})
+		}
+		for _, v := range m.te {
+			expect[i] = append(expect[i], pair{"Transfer-Encoding", v})
+		}
+		ctx, remove, err := martian.TestContext(req, nil, nil)
+		if err != nil {
+			return core.Result{Impl: "bad-op"}
+		}
+		removes = append(removes, remove)
+		if m.api {
+			ctx.APIRequest()
+		}
+		wireID[i] = m.id[:8]
+		if viaMod {
+			wireID[i] = ctx.ID()[:8]
+		}
+		wg.Add(1)
+		go func(i int, m *msg) {
+			defer wg.Done()
+			defer func() {
+				if x := recover(); x != nil {
+					panMu.Lock()
+					if panicked == "" {
+						panicked = fmt.Sprintf("message %d: %v", i, x)
+					}
+					panMu.Unlock()
+				}
+			}()
+			<-start
+			var wrapped io.ReadCloser
+			if m.kind == 'q' {
+				if viaMod {
+					mod.ModifyRequest(req)
+				} else {
+					s.LogRequest(m.id, req)
+				}
+				wrapped = req.Body
+			} else {
+				if viaMod {
+					mod.ModifyResponse(res)
+				} else {
+					s.LogResponse(m.id, res)
+				}
+				wrapped = res.Body
+			}
+			for k, st := range m.reads {
+				buf := make([]byte, len(st.data)+st.extra)
+				n, err := wrapped.Read(buf)
+				g := got{n: n, err: err}
+				if n >= 0 && n <= len(buf) {
+					g.data = append([]byte(nil), buf[:n]...)
+				}
+				gots[i] = append(gots[i], g)
+				if k%3 == 1 {
+					runtime.Gosched()
+				}
+			}
+			wrapped.Close()
+		}(i, m)
+	}
+	close(start)
+	done := make(chan struct{})
+	go func() { wg.Wait(); close(done) }()
+	select {
+	case <-done:
+	case <-time.After(20 * time.Second):
+		return core.Result{Impl: "hang", Fail: "logging goroutines did not finish within 20s", Sig: "log-hang"}
+	}
+	panMu.Lock()
+	pm := panicked
+	panMu.Unlock()
+	closed := make(chan struct{})
+	sentinel := ""
+	go func() {
+		defer close(closed)
+		if !viaMod {
+			s.Close() // received by the writer goroutine only after its last Write returned
+			return
+		}
+		// every send of the sentinel returns only after the writer goroutine took the frame, i.e.
+		// after it finished writing everything sent before
+		sreq := &http.Request{Method: "FLUSH", URL: &url.URL{}, Header: http.Header{}, Body: http.NoBody}
+		sctx, rm, err := martian.TestContext(sreq, nil, nil)
+		if err != nil {
+			return
+		}
+		defer rm()
+		sentinel = sctx.ID()[:8]
+		mod.ModifyRequest(sreq)
+	}()
+	select {
+	case <-closed:
+	case <-time.After(10 * time.Second):
+		return core.Result{Impl: "hang", Fail: "Stream.Close did not return within 10s", Sig: "close-hang"}
+	}
+	t1 := time.Now().UnixNano()/1e6 + 1
+	for _, r := range removes {
+		r()
+	}
+	rec.mu.Lock()
+	chunks := rec.chunks
+	rec.mu.Unlock()
+	var streamBytes []byte
+	for _, c := range chunks {
+		streamBytes = append(streamBytes, c...)
+	}
+
+	if pm != "" {
+		return core.Result{Impl: "panic", Fail: "logging a message panicked: " + pm, Sig: "log-panic"}
+	}
+
+	// ---- observations
+	fs, ind, end, res := parseBoth(streamBytes)
+	if viaMod && sentinel != "" {
+		var fs2, ind2 []frame
+		for j := range fs {
+			if fs[j].id != sentinel {
+				fs2 = append(fs2, fs[j])
+				if j < len(ind) {
+					ind2 = append(ind2, ind[j])
+				}
+			}
+		}
+		fs, ind = fs2, ind2
+		core.Count("log:via-modifier")
+	}
+	// interleaving statistics
+	switches := 0
+	for i := 1; i < len(fs); i++ {
+		if fs[i].id != fs[i-1].id || fs[i].mt != fs[i-1].mt {
+			switches++
+		}
+	}
+	if switches >= 2*len(ms) {
+		core.Count("log:interleaved-cases")
+	}
+	core.Count(fmt.Sprintf("log:messages=%d", len(ms)))
+	wholeFrames := len(chunks) == len(ind)
+	if wholeFrames {
+		for i := range chunks {
+			if !bytes.Equal(chunks[i], ind[i].raw) {
+				wholeFrames = false
+			}
+		}
+	}
+	if wholeFrames {
+		core.Count("log:one-write-per-frame")
+	}
+
+	type key struct {
+		id string
+		mt byte
+	}
+	owner := map[key]int{}
+	for i, m := range ms {
+		mt := byte(1)
+		if m.kind == 's' {
+			mt = 2
+		}
+		owner[key{wireID[i], mt}] = i
+	}
+	perMsg := make([][]int, len(ms)) // frame indices in stream order
+	stray := -1
+	for j, f := range fs {
+		if i, ok := owner[key{f.id, f.mt}]; ok {
+			perMsg[i] = append(perMsg[i], j)
+		} else if stray < 0 {
+			stray = j
+		}
+	}
+	rawOf := func(j int) []byte { // raw frame bytes, with the op's id in place of a context id
+		if j >= len(ind) {
+			return nil
+		}
+		if !viaMod || len(ind[j].raw) < 10 {
+			return ind[j].raw
+		}
+		raw := append([]byte(nil), ind[j].raw...)
+		if i, ok := owner[key{ind[j].id, ind[j].mt}]; ok {
+			copy(raw[2:10], ms[i].id[:8])
+		}
+		return raw
+	}
+
+	var out []string
+	fail1 := func(sig, format string, a ...interface{}) {
+		if res.Fail == "" {
+			res = fail(sig, format, a...)
+		}
+	}
+	if res.Fail == "" && end != "eof" {
+		fail1("stream-torn", "the stream of %d bytes written by marbl.Stream does not parse to its end: %d frames then %s", len(streamBytes), len(fs), end)
+	}
+	if stray >= 0 {
+		fail1("stray-frame", "frame %d (%s) belongs to no logged message", stray, fs[stray].show())
+	}
+	for i, m := range ms {
+		var hs, ds, rets []string
+		var hp []pair
+		var dfs []frame
+		for _, j := range perMsg[i] {
+			f := fs[j]
+			if f.hdr {
+				if f.name == ":timestamp" {
+					hs = append(hs, core.HexS(f.name)+":ts")
+					ts, err := strconv.ParseInt(f.value, 10, 64)
+					if err != nil || ts < t0-1 || ts > t1 {
+						fail1("headers", "message %d: :timestamp %q is not a millisecond time inside the run [%d,%d]", i, f.value, t0, t1)
+					}
+				} else {
+					hs = append(hs, core.HexS(f.name)+":"+core.HexS(f.value)+":"+fnv(rawOf(j)))
+					hp = append(hp, pair{f.name, f.value})
+				}
+			} else {
+				ds = append(ds, fmt.Sprintf("%d:%s:%d:%s:%s", f.index, bit(f.terminal), len(f.data), fnv(f.data), fnv(rawOf(j))))
+				dfs = append(dfs, f)
+			}
+		}
+		sort.Strings(hs)
+		for _, g := range gots[i] {
+			rets = append(rets, strconv.Itoa(g.n)+errLetter(g.err))
+		}
+		out = append(out, fmt.Sprintf("m%d=%s|%s|%s", i, joinOr(",", hs), joinOr(",", ds), joinOr(",", rets)))
+
+		// -- oracle, message i --------------------------------------------------------------
+		// (a) exactly the message's pseudo-headers and headers (a multiset). The three names
+		// proxyutil.Header routes to message fields are compared as those fields.
+		// A map key spelled like one of them is outside what net/http produces; frames of that
+		// name are then not judged (the model comparison still covers them).
+		lenient := map[string]bool{}
+		for _, kv := range m.hdr {
+			if special[kv.k] {
+				lenient[kv.k] = true
+			}
+		}
+		var hp2, ex2 []pair
+		for _, p := range hp {
+			if !lenient[p.k] {
+				hp2 = append(hp2, p)
+			}
+		}
+		for _, p := range expect[i] {
+			if !lenient[p.k] {
+				ex2 = append(ex2, p)
+			}
+		}
+		a, b := sortedPairs(hp2), sortedPairs(ex2)
+		if len(a) != len(b) {
+			fail1("headers", "message %d: %d header frames, the message has %d (pseudo-)headers (besides :timestamp): got %q want %q", i, len(a), len(b), a, b)
+		} else {
+			for k := range a {
+				if a[k] != b[k] {
+					fail1("headers", "message %d: header frames differ from the message: got %q want %q", i, a[k], b[k])
+					break
+				}
+			}
+		}
+		// (b) wrapper transparency
+		var consumed []byte
+		sawEOF := m.noBody && m.kind == 'q' // http.NoBody of a request is not wrapped: an empty body is at end-of-file
+		for k, g := range gots[i] {
+			st := m.reads[k]
+			if g.n != len(st.data) || g.err != errOf(st.err) || !bytes.Equal(g.data, st.data) {
+				fail1("wrapper", "message %d read %d: wrapper returned (%d,%v), the body returned (%d,%v) (or different bytes)", i, k, g.n, g.err, len(st.data), errOf(st.err))
+			}
+			consumed = append(consumed, g.data...)
+			if g.err == io.EOF {
+				sawEOF = true
+			}
+		}
+		// (c) data frames: contiguous from zero, concatenation = bytes read, terminal ⇔ EOF
+		var cat []byte
+		for k, f := range dfs {
+			if f.index != uint32(k) {
+				fail1("index", "message %d: data frame %d in stream order has index %d", i, k, f.index)
+				break
+			}
+			cat = append(cat, f.data...)
+		}
+		if !bytes.Equal(cat, consumed) {
+			fail1("body", "message %d: data frames concatenate to %d bytes (%s), the consumer read %d bytes (%s)", i, len(cat), fnv(cat), len(consumed), fnv(consumed))
+		}
+		if len(dfs) > 0 {
+			last := dfs[len(dfs)-1]
+			if last.terminal != sawEOF {
+				fail1("terminal", "message %d: last data frame terminal=%v but body reached EOF=%v", i, last.terminal, sawEOF)
+			}
+		} else if len(gots[i]) > 0 {
+			fail1("body", "message %d: %d reads but no data frame", i, len(gots[i]))
+		}
+		if !sawEOF {
+			for k, f := range dfs {
+				if f.terminal {
+					fail1("terminal", "message %d: data frame %d is terminal but the body never returned EOF", i, k)
+					break
+				}
+			}
+		}
+	}
+	out = append(out, "end="+end, fmt.Sprintf("frames=%d", len(fs)))
+	res.Impl = strings.Join(out, " ")
+	return res
+}
+
+type ex struct{ queue []string }
+
+func (P) NewExec() core.Exec { return &ex{} }
+func (*ex) Close()           {}
+
+func (e *ex) Do(op string) core.Result {
+	t := strings.Fields(op)
+	switch {
+	case len(t) == 2 && t[0] == "read":
+		return doRead(t[1])
+	case len(t) >= 2 && t[0] == "log":
+		return doLog(t[1:], false)
+	case len(t) == 2 && t[0] == "m": // one message of the next `run`
+		e.queue = append(e.queue, t[1])
+		return core.Result{Impl: "queued"}
+	case len(t) == 1 && (t[0] == "run" || t[0] == "runmod"): // runmod: through marbl.Modifier
+		q := e.queue
+		e.queue = nil
+		if len(q) == 0 {
+			return core.Result{Impl: "bad-op"}
+		}
+		return doLog(q, t[0] == "runmod")
+	}
+	return core.Result{Impl: "bad-op"}
+}
